@@ -228,6 +228,8 @@ def run(tier):
           ("main.pn", "import \"shape.pn\";\nfn main() -> i32\n{\n\tvar p = P { x: 1, y: 2 };\n\tgrow(&p);\n\tvar w = swap(W { lo: 7, hi: 9 });\n\tprint!(sum(p), \" \", w.lo, \" \", w.hi, \"\\n\");\n\treturn: 0\n}\n")], "4 9 7"),
         ([("len.pn", "pub const N: usize = 3;\npub fn total(a: []i32) -> i32\n{\n\treturn: a[0] + a[1] + a[2]\n}\npub fn fill(a: &[N]i32)\n{\n\ta[0] = 5;\n}\n"),
           ("main.pn", "import \"len.pn\";\nfn main() -> i32\n{\n\tvar a: [N]i32 = [1, 2, 3];\n\tfill(&a);\n\tprint!(total(a), \" \", |a|, \"\\n\");\n\treturn: 0\n}\n")], "10 3")]
+    iface.append(([("shapes.pn", "pub struct Shape\n{\n\tkind: u8,\n\tarea: i64,\n\tsides: i32,\n}\n"), ("limits.pn", "import \"shapes.pn\";\npub const SHAPE_BYTES: usize = |:Shape|;\npub const TWO: usize = |:[2]Shape|;\n"),
+                   ("main.pn", "import \"shapes.pn\";\nimport \"limits.pn\";\nfn main() -> i32\n{\n\tvar buffer: [SHAPE_BYTES]u8;\n\tprint!(|buffer| + SHAPE_BYTES, \" \", TWO, \"\\n\");\n\treturn: 0\n}\n")], "48 48"))
     import itertools as _it
     for ii, (mods, want) in enumerate(iface):
         for oi, order in enumerate(_it.permutations(mods)):
